@@ -29,6 +29,8 @@ def known_match(f, sc):
 def run(rep, tier, seed, proof_broken=False):
     import vlib.props.C02 as me
     histprop.run(rep, me, tier, seed, proof_broken)
+    from vlib import stagefault
+    stagefault.phase(rep, "C02", tier, seed, committed=True)
 
 
 def replay(rep, payload):
